@@ -566,7 +566,7 @@ def main():
                   "QED step: orders (1,1),(2,1) (quick), (2,2),(3,2) (thorough); dim 4 and dim 2; couplings follow symbolic smooth RGEs; series through h^2"]
     chk.stubs = ["ekore.anomalous_dimensions.exp_matrix (numpy.linalg.eig) and exp_matrix_2D (in the series-valued iterate cases) -> defining power series of the matrix exponential (C23 decides that both compute it)",
                  "eko.beta inside singlet_qed -> symbolic coefficients"]
-    chk.out_of_claim = ["the limit n->infinity, measured error constants, floating point"]
+    chk.out_of_claim = ["the limit n->infinity, measured error constants, floating point", "4x4 QED singlet step at alpha_em order 2 (orders (2,2), (3,2)): the residual polynomials exceed the memory/time bound (90 min, > 35 GB); decided for the 2x2 valence sector at those orders"]
     for o in ((2, 3, 4) if thorough else (2, 3)):
         chk.case("iterate.local.o%d" % o, case_iterate_local, order=o)
     for o in (2, 3):
@@ -585,6 +585,8 @@ def main():
         for dim in (2, 4):
             if not thorough and od == (2, 1) and dim == 4:
                 continue  # ~8 min: thorough tier only
+            if dim == 4 and od[1] >= 2:
+                continue  # (2,2): ~90 min, (3,2): > 35 GB of residual polynomials -- outside the bound (stated in the evidence)
             chk.case("qed.step.o%d%d.dim%d" % (od[0], od[1], dim), case_qed_step, order=od, dim=dim)
     # the caller side of the "supplied coupling steps": geometric a_s nodes and half-step couplings at the mu^2 midpoints
     from . import opwire
